@@ -59,6 +59,7 @@ fn main() {
     let progs2 = programs(2, &base);
     let progs1 = programs(1, &alpha);
     let mut drivers = vec![];
+    let mut opposite = vec![];
     let preludes: Vec<Vec<CellOp>> = vec![vec![], vec![CellOp::Add(1048576.0)], vec![CellOp::Set(-2097152.0)]];
     for &f in &flavours {
         // all unordered pairs of programs of length <= 2
@@ -85,6 +86,16 @@ fn main() {
                 drivers.push(CellDriver { cloned: drivers.len() % 2 == 1, flavour: f, prelude: vec![], programs: instantiate(&[vec![CellOp::Add(1.0)], vec![CellOp::Add(1.0)], vec![CellOp::RemoveOther, third]]) });
             }
         }
+        // contention: one update against a run by another thread that ends in a set / a read (an update that changes
+        // strategy after losing several races); exactly opposite updates meeting inside the cell (four threads)
+        {
+            let a = CellOp::Add(1.0);
+            drivers.push(CellDriver { cloned: drivers.len() % 2 == 1, flavour: f, prelude: vec![], programs: instantiate(&[vec![a], vec![a, a, a, CellOp::Set(0.0), CellOp::Get]]) });
+            drivers.push(CellDriver { cloned: drivers.len() % 2 == 1, flavour: f, prelude: vec![], programs: instantiate(&[vec![CellOp::Sub(1.0)], vec![a, a, a, a, a, CellOp::Get]]) });
+            if thorough || f == Flavour::Gauge {
+                opposite.push(CellDriver { cloned: f != Flavour::Gauge, flavour: f, prelude: vec![CellOp::Add(1048576.0)], programs: vec![vec![CellOp::Add(5.0)], vec![CellOp::Sub(5.0)], vec![CellOp::Sub(5.0)], vec![CellOp::Inc]] });
+            }
+        }
         if thorough {
             // triples: one thread with 2 operations, two threads with 1
             // (restricted to the first four letters of the alphabet to keep the tier within minutes)
@@ -101,7 +112,7 @@ fn main() {
             }
         }
     }
-    let ndrivers = drivers.len();
+    let ndrivers = drivers.len() + opposite.len();
     rep.rule = format!(
         "stateless exploration (vsched, Mode U = unbounded with sleep sets; a driver exceeding the execution cap is re-run preemption-bounded) of all thread interleavings at atomic/lock operations of: for each of 4 gauge flavours (Gauge, IntGauge, children of GaugeVec/IntGaugeVec fetched by every call), all unordered pairs of programs of length 1..2 over {:?} and all unordered triples of 1-operation programs over {:?}{}; start states fresh / pre-added / pre-set negative; plus integer-gauge drivers (pairs, 2+1, triples over add, sub, inc, dec, set, get) started 2 below i64::MAX and 1 above i64::MIN, judged with exact wrapping i64 arithmetic; every update carries a distinct power of two; half of the drivers share one handle by reference, the other half give every thread its own clone; oracle = linearizability (Wing-Gong) of the recorded call/return history incl. quiescent get() and collect() against a sequential gauge (add/sub/inc/dec/set/get). distinct = distinct (flavour, values read, real-time relation) outcomes",
         base, alpha, if thorough { "; plus triples with one 2-operation thread" } else { "" }
@@ -116,6 +127,12 @@ fn main() {
     let mut results = explore_many(small, Mode::U, cap, 3, 16, cl);
     SPURIOUS_BUDGET.store(0, std::sync::atomic::Ordering::Relaxed);
     results.extend(explore_many(large, Mode::U, cap, 3, 16, cl));
+    // the four-thread drivers are the largest single explorations: 16 workers on each in turn
+    for d in opposite {
+        let name = verif_harness::vsched::Driver::name(&d);
+        let r = verif_harness::vsched::explore(d, Mode::U, 2_000_000, 16);
+        results.push((name, Mode::U, r));
+    }
     // integer gauges next to the ends of the i64 range (wrap-around must stay atomic), exact i64 arithmetic
     let mut ext = vec![];
     for vec_child in [false, true] {
